@@ -390,8 +390,8 @@ func gpElided(gp *gparsers, t lexer.TokenType) bool {
 
 func init() {
 	Register(&mon.Spec{
-		ID:   "C15",
-		Rule: "case = (generated grammar over the default, stateful or lower-case-eliding lexer, optionally behind Upper/Map token mappers; input text incl. arbitrary bytes; filename; AllowTrailing). ParseString, ParseBytes, Parse(reader), ParseFromLexer over Upgrade(Lexer().Lex(...)), ParseString+Trace and Parse(\"\", named reader) must return identical ASTs (all fields, positions, token lists) and identical error texts; a recording Definition wrapper (forwarding Lex/LexString/LexBytes to the wrapped definition's own methods) must see exactly Parser.Lex's tokens during each call; the definition's Lex/LexString/LexBytes (and lexer.LexString/LexBytes) must yield identical streams; after ParseFromLexer(AllowTrailing) the caller's lexer must peek the first unconsumed token (decided by the reference semantics). Non-trivial: >=3 tokens and a multi-line input or elided tokens. Distinct by (grammar IR, text).",
+		ID:          "C15",
+		Rule:        "case = (generated grammar over the default, stateful or lower-case-eliding lexer, optionally behind Upper/Map token mappers; input text incl. arbitrary bytes; filename; AllowTrailing). ParseString, ParseBytes, Parse(reader), ParseFromLexer over Upgrade(Lexer().Lex(...)), ParseString+Trace and Parse(\"\", named reader) must return identical ASTs (all fields, positions, token lists) and identical error texts; a recording Definition wrapper (forwarding Lex/LexString/LexBytes to the wrapped definition's own methods) must see exactly Parser.Lex's tokens during each call; the definition's Lex/LexString/LexBytes (and lexer.LexString/LexBytes) must yield identical streams; after ParseFromLexer(AllowTrailing) the caller's lexer must peek the first unconsumed token (decided by the reference semantics). Non-trivial: >=3 tokens and a multi-line input or elided tokens. Distinct by (grammar IR, text).",
 		Assumptions: []string{"with token mappers the recorder sits below the mapper, so the handed-out-tokens comparison is only made for unmapped parsers; AST/error agreement is checked for all", "generated Go lexers as the parser's lexer are exercised in the C05 check"},
 		Batches:     func(t string) int { return pick(t, 4, 16) },
 		Floor:       func(t string) int { return pick(t, 1500, 20000) },
